@@ -13,7 +13,7 @@ def run(ctx) -> Report:
     if not ctx.replay:
         G.run_mc(rep, ctx, "C04")
     n = 1 if ctx.quick else 10
-    G.conformance(rep, ctx, "C04", {"basic": 120 * n, "churn": 220 * n, "faults": 180 * n, "subs": 60 * n})
+    G.conformance(rep, ctx, "C04", {"basic": 120 * n, "churn": 220 * n, "faults": 180 * n, "subs": 60 * n, "live": 80 * n, "latelookup": 60 * n})
     rep.extra.update(
         bounds="MC: 2-3 members x 2 partitions x logs of 1-2 records, <=2-3 generations, 1-2 crashes placed at ANY state, restarts, "
                "commits at any point (auto-commit tick, commit(), last commit before rejoin/close are all instances of Commit); "
